@@ -264,7 +264,9 @@ def regroup_vectorized(srccat, eps, far=None, dist=norm_dist):
                 groups.append([idx])
             rafar = far / np.cos(np.radians(rec.dec))
             group_recs = np.take(srccat, group, mode='clip')
-            group_recs = group_recs[abs(rec.ra - group_recs.ra) <= rafar]
+            dra = abs(rec.ra - group_recs.ra)
+            # right ascension wraps at 360 degrees
+            group_recs = group_recs[np.minimum(dra, 360 - dra) <= rafar]
             if len(group_recs) and dist(rec, group_recs).min() < eps:
                 linked.append(group)
         if linked:
